@@ -310,6 +310,14 @@ func round6(w *World, r *Report, prop string) {
 		r.guard("R04.24", func() { r6StartsWithXML(w, r, "R04.24") })
 		r.Rule("R04.25", "Number ::= '.' Digits: after a '.', CommonLex.LexDot hands over to the number lexer exactly when the next rune is one of the ten digits", 1)
 		r.guard("R04.25", func() { r6LexDotDigits(w, r, "R04.25") })
+	case "C07":
+		r.Rule("R07.13", "no statement kind falls through the argument dispatch: getArgByType has an arm for every kind that has a keyword — its default arm is a panic without position that, through the deferred interning of a nil argument, surfaces as a runtime error which Tree.recover re-raises", 1)
+		r.guard("R07.13", func() { r6ArgByTypeTotal(w, r, "R07.13") })
+	case "C09":
+		r.Rule("R09.13", "a submodule is laid out like a module: node.check runs checkModule and checkRevisionOrder exactly for the statement kinds module and submodule", 2)
+		r.guard("R09.13", func() { r6ModuleChecksBothKinds(w, r, "R09.13") })
+		r.Rule("R09.14", "an empty step is not a node identifier: the Parse methods of the schema-node-id arguments split at \"/\" with a function that keeps empty parts (each part is then checked), never with strings.Fields/FieldsFunc", 2)
+		r.guard("R09.14", func() { r6SchemaIdSteps(w, r, "R09.14") })
 	case "C08":
 		r.Rule("R08.16", "comments are skipped, not glued to what follows: lexComment and lexCommentLine call ignore() on every path that hands back to the statement scanner", 2)
 		r.guard("R08.16", func() { r6CommentsDiscarded(w, r, "R08.16") })
@@ -449,4 +457,142 @@ func firstValid(ps ...token.Pos) token.Pos {
 		}
 	}
 	return token.NoPos
+}
+
+// r6ArgByTypeTotal (R07.13): getArgByType has an arm for every statement kind
+// that has a keyword; its default arm (a panic without position which, through
+// the deferred interning of a nil argument, becomes a runtime error that
+// Tree.recover re-raises) is reached for none of them.
+func r6ArgByTypeTotal(w *World, r *Report, rule string) {
+	f := w.SSAFunc(w.Func("parse", "getArgByType"))
+	if f == nil || len(f.Params) == 0 {
+		panic(undecided{"parse.getArgByType"})
+	}
+	names, _ := nodeTypeNames(w)
+	sym := NewSym(w)
+	cond := pcZ
+	n := 0
+	for _, b := range f.Blocks {
+		if _, ok := b.Instrs[len(b.Instrs)-1].(*ssa.Panic); ok {
+			n++
+			cond = pcOrF(cond, sym.PathCond(f.Blocks[0], b, nil))
+		}
+	}
+	if n == 0 {
+		r.OK(rule, "getArgByType never panics", f.Pos(), "no panic in the function")
+		return
+	}
+	// the subject the arms test: the kind parameter (read through its cell when a function literal captures it)
+	freq := map[string]int{}
+	subj := sym.Key(f.Params[0], nil)
+	for _, a := range cond.atoms() {
+		if a.subj != "" {
+			freq[a.subj]++
+			if freq[a.subj] > freq[subj] {
+				subj = a.subj
+			}
+		}
+	}
+	vals, decided := pcValuesWhen(cond, subj)
+	if !decided {
+		panic(undecided{"getArgByType: the kinds that reach the default arm"})
+	}
+	var bad []string
+	for v, name := range names {
+		if strings.Contains(name, " ") {
+			continue // range markers of the kind enumeration ("data definition end" …), not statements
+		}
+		if vals.contains(v) {
+			bad = append(bad, name)
+		}
+	}
+	sort.Strings(bad)
+	r.Check(len(bad) == 0, rule, "getArgByType covers every statement kind", f.Pos(), fmt.Sprintf("%d kinds with a keyword, none reaches the default arm", len(names)), "the statement kind(s) {"+strings.Join(bad, ",")+"} fall into the default arm: Parse panics with a runtime error (nil argument interned in the deferred call) that Tree.recover re-raises, and the lexer goroutine is left blocked")
+}
+
+// r6ModuleChecksBothKinds (R09.13): node.check runs the section-order and the
+// revision-order check for modules and submodules alike.
+func r6ModuleChecksBothKinds(w *World, r *Report, rule string) {
+	f := w.SSAFunc(w.Method("parse", "node", "check"))
+	if f == nil {
+		panic(undecided{"parse.node.check"})
+	}
+	_, byName := nodeTypeNames(w)
+	var want ISet
+	for _, kw := range []string{"module", "submodule"} {
+		for _, v := range byName[kw] {
+			want = want.union(isetOf(v))
+		}
+	}
+	sym := NewSym(w)
+	for _, name := range []string{"checkModule", "checkRevisionOrder"} {
+		g := w.SSAFunc(w.Func("parse", name))
+		if g == nil {
+			panic(undecided{"parse." + name})
+		}
+		cond := pcZ
+		n := 0
+		for _, b := range f.Blocks {
+			for _, in := range b.Instrs {
+				if c, ok := in.(*ssa.Call); ok && c.Call.StaticCallee() == g {
+					n++
+					cond = pcOrF(cond, sym.PathCond(f.Blocks[0], b, nil))
+				}
+			}
+		}
+		if n == 0 {
+			r.Fail(rule, "node.check runs "+name, f.Pos(), name+" is no longer called from node.check")
+			continue
+		}
+		freq := map[string]int{}
+		subj := ""
+		for _, a := range cond.atoms() {
+			if a.subj != "" {
+				freq[a.subj]++
+				if freq[a.subj] > freq[subj] {
+					subj = a.subj
+				}
+			}
+		}
+		vals, decided := pcValuesWhen(cond, subj)
+		r.Check(decided && subj != "" && vals.equal(want), rule, "node.check runs "+name+" for modules and submodules", f.Pos(), "statement kind ∈ {module, submodule}", fmt.Sprintf("%s runs for the statement kinds %s, not for exactly module and submodule: a submodule (or module) with its sections or revisions out of order is accepted", name, vals.String()))
+	}
+}
+
+// r6SchemaIdSteps (R09.14): the steps of a schema node identifier are obtained
+// with strings.Split, which keeps empty steps so that they can be refused.
+func r6SchemaIdSteps(w *World, r *Report, rule string) {
+	for _, typ := range []string{"AbsoluteSchemaArg", "DescendantSchemaArg"} {
+		f := w.SSAFunc(w.Method("parse", typ, "Parse"))
+		if f == nil {
+			panic(undecided{"parse." + typ + ".Parse"})
+		}
+		splits, drops := false, ""
+		for _, g := range bodiesDeep(f, 2) {
+			for _, b := range g.Blocks {
+				for _, in := range b.Instrs {
+					c, ok := in.(*ssa.Call)
+					if !ok || c.Call.StaticCallee() == nil {
+						continue
+					}
+					switch c.Call.StaticCallee().String() {
+					case "strings.Split", "strings.SplitN", "strings.SplitAfter", "strings.Cut":
+						if k, isK := c.Call.Args[1].(*ssa.Const); isK && k.Value != nil && k.Value.Kind() == constant.String && constant.StringVal(k.Value) == "/" {
+							splits = true
+						}
+					case "strings.Fields", "strings.FieldsFunc", "strings.FieldsSeq", "strings.FieldsFuncSeq":
+						drops = c.Call.StaticCallee().String()
+					}
+				}
+			}
+		}
+		why := ""
+		switch {
+		case drops != "":
+			why = "the steps are obtained with " + drops + ", which drops empty steps"
+		case !splits:
+			why = "no split of the argument at \"/\" that keeps empty steps was found"
+		}
+		r.Check(why == "", rule, typ+".Parse keeps empty steps to refuse them", f.Pos(), "strings.Split(arg, \"/\"), every part checked as an identifier", why+": `/a//b`, `/a/b/` and `/` are accepted as schema node identifiers")
+	}
 }
